@@ -190,6 +190,7 @@ def run_job(job):
     if job["kind"] == "collisions":
         collisions(st)
         same_name_defs(st)
+        module_state(st)
         if job.get("missing"):
             st.extra["corpora_not_available"] = job["missing"]
         return st
@@ -401,6 +402,70 @@ def same_name_defs(st, only=None):
 
 
 
+def module_state(st, only=None):
+    """a template that changes its own <%! %> module-level state while it renders: every Template OBJECT, however it
+    was constructed (from text, from a file, into a module directory, from an existing module file, with a module
+    path of the caller's choosing), starts from the state its module block sets up - its renders count 1, 2 whatever
+    other Template objects of the same source did before in the process"""
+    from mako.lookup import TemplateLookup
+    from mako.template import Template
+
+    text = "<%! hits = [] %><% hits.append(1) %>n=${len(hits)}<%def name='d()'>d=${len(hits)}</%def>"
+    routes = ["text", "filename", "lookup-files", "lookup-moddir", "lookup-moddir-other-lookup", "filename-moddir", "module_filename", "modulename_callable"]
+    for first in routes:
+        for second in routes:
+            if only is not None and only != (first, second):
+                continue
+            root = core.scratch_dir("c08m-")
+            src = os.path.join(root, "src")
+            os.makedirs(src)
+            fn = os.path.join(src, "page.html")
+            open(fn, "w").write(text)
+            mods = os.path.join(root, "mods")
+            shared = {}
+
+            def make(route):
+                if route == "text":
+                    return Template(text)
+                if route == "filename":
+                    return Template(filename=fn)
+                if route == "lookup-files":
+                    return TemplateLookup(directories=[src]).get_template("page.html")
+                if route == "lookup-moddir":
+                    if "lk" not in shared:
+                        shared["lk"] = TemplateLookup(directories=[src], module_directory=mods, collection_size=1)
+                    lk = shared["lk"]
+                    lk._collection.clear() if hasattr(lk._collection, "clear") else None
+                    return lk.get_template("page.html")
+                if route == "lookup-moddir-other-lookup":
+                    return TemplateLookup(directories=[src], module_directory=mods).get_template("page.html")
+                if route == "filename-moddir":
+                    return Template(filename=fn, module_directory=os.path.join(root, "tmods"))
+                if route == "module_filename":
+                    return Template(filename=fn, module_filename=os.path.join(root, "one_module.py"))
+                return TemplateLookup(directories=[src], modulename_callable=lambda f, u: os.path.join(root, "named", "page_mod.py")).get_template("page.html")
+
+            st.states += 1
+            st.nontrivial += 1
+            st.traces += 1
+            st.oracles["module-state"] += 1
+            try:
+                a = make(first)
+                got = [a.render_unicode(), a.render_unicode()]
+                b = make(second)
+                got += [b.render_unicode(), b.get_def("d").render_unicode(), a.render_unicode()]
+            except BaseException as e:  # noqa
+                got = ["EXC %s: %s" % (type(e).__name__, str(e)[:100])]
+            st.evaluations += len(got)
+            st.transitions += len(got)
+            want = ["n=1", "n=2", "n=1", "d=1", "n=3"]
+            ok = got == want
+            st.outcomes["module-state:%s" % ("ok" if ok else "differs")] += 1
+            if not ok:
+                st.violation("module-state:second Template (%s) shares state" % ("module file reused" if second.split("-")[0] == first.split("-")[0] or "moddir" in second and "moddir" in first else "another route"),
+                             {"kind": "modstate", "first": first, "second": second}, "every Template object starts from its own module-level state", want, got)
+
+
 def collisions(st, only=None):
     """all pairs of URIs that differ only in non-word characters, registered in one lookup"""
     from mako.lookup import TemplateLookup
@@ -452,6 +517,9 @@ def replay(case):
     st = Stats()
     if case.get("kind") == "collision":
         collisions(st, only=(case["backing"], case["uris"][0], case["uris"][1]))
+        return (False, "reproduced: %s" % st.violations[0]["sig"]) if st.violations else (True, "holds")
+    if case.get("kind") == "modstate":
+        module_state(st, only=(case["first"], case["second"]))
         return (False, "reproduced: %s" % st.violations[0]["sig"]) if st.violations else (True, "holds")
     if case.get("kind") == "samename":
         same_name_defs(st, only=(case["mode"], case["order"]))
